@@ -960,12 +960,21 @@ class Node:
 
         def _visit(parent: Node) -> bool:
             """Return True if any descendant returned True."""
+            nonlocal stopped
             remove_nodes = []
             must_keep = False
 
             for n in parent.children:
+                if stopped:
+                    # Traversal was stopped: remaining nodes were not accepted
+                    remove_nodes.append(n)
+                    continue
                 res = call_predicate(predicate, n)
-                if res in (None, False):  # Keep only if has a `true` descendant
+                if isinstance(res, StopTraversal):
+                    # Stop the scan, but keep what was accepted so far
+                    stopped = True
+                    remove_nodes.append(n)
+                elif res in (None, False):  # Keep only if has a `true` descendant
                     if _visit(n):
                         must_keep = True
                     else:
@@ -978,20 +987,18 @@ class Node:
                     must_keep = True
                 elif isinstance(res, SkipBranch):
                     if res.and_self is False:
-                        remove_nodes = n.children
+                        # Keep the node itself, but skip (i.e. remove) its descendants
+                        n.remove_children()
+                        must_keep = True
                     else:
                         remove_nodes.append(n)
-                elif isinstance(res, StopTraversal):
-                    raise res
 
             for n in remove_nodes:
                 n.remove()
             return must_keep
 
-        try:
-            _visit(self)
-        except StopTraversal:
-            pass
+        stopped = False
+        _visit(self)
         return
 
     def from_dict(
